@@ -334,6 +334,8 @@ def pred_c03(ops, impl):
     for n, (op, out) in enumerate(zip(ops, impl)):
         if op.split(" ", 1)[0] not in TX_OPS or n + 1 >= len(ops) or ops[n + 1] != "trace":
             continue
+        if out == "panic":
+            continue  # e.g. a lifted Empty-typed contract emitting a Custom message aborts the whole call
         items = parse_sx(op)
         all_scripts = scripts_of_op(items or [])
         entries = [e for e in impl[n + 1][6:-1].split(" || ") if e]
